@@ -17,6 +17,7 @@ RUN=$(echo "$RUN" | sed 's#\(demo[A-Za-z0-9_]*\.sh\)#\1.adapted#')
 # demo on the unchanged tree must pass
 ( eval "$RUN" ) >$W.base.log 2>&1; base=$?
 grep -q "^--- FAIL\|^FAIL" $W.base.log && base=1
+git clean -fdq
 if ! git apply --3way $M/patch.diff >$W.apply.log 2>&1; then echo "RESULT $M apply=FAIL"; cat $W.apply.log | tail -3; rm -f $W.*.log; exit 1; fi
 git diff HEAD > $W.rebased.diff
 go build ./... >$W.build.log 2>&1; b=$?
@@ -26,4 +27,5 @@ grep -q "^--- FAIL\|^FAIL" $W.mut.log && mut=1
 echo "RESULT $M apply=ok build=$b suite=$t demo_on_base=$base demo_on_mutant=$mut"
 if [ "$base" != 0 ]; then tail -5 $W.base.log; fi
 cp $W.rebased.diff $M/patch.rebased.diff
+[ "$t" != 0 ] && grep -v "^ok\|no test files" $W.test.log | tail -15
 rm -rf $W.*.log $W.rebased.diff $W.scratch /tmp/wt/$ID.scratch $M/demo/*.adapted
